@@ -7,7 +7,8 @@
    [block_string_value], [strip_doc] are the specification side
    (Spec/PrinterSpec.v: GraphQL June 2018, 2.9.4). *)
 From PyGql Require Import Lang.Parser Spec.LexSpec Spec.GrammarSpec Proofs.PrinterRoundtrip Proofs.PrinterValueRoundtrip
-                          Proofs.PrinterExecRoundtrip Spec.ExecOnlySpec Proofs.PrinterClosedRoundtrip.
+                          Proofs.PrinterExecRoundtrip Spec.ExecOnlySpec Proofs.PrinterSdlRoundtrip
+                          Proofs.PrinterClosedRoundtrip.
 From PyGql Require Import Lang.PrinterModel Spec.PrinterSpec Proofs.PrinterProofs.
 
 (* Quoted strings: reading the printed form of ANY string s (every code
@@ -178,6 +179,46 @@ Theorem C03_roundtrip_type_closed : forall fl fl' s t,
   parse_type_str fl' (pr_type t) = Ok (strip_ty t).
 Proof. exact roundtrip_type_closed. Qed.
 Print Assumptions C03_roundtrip_type_closed.
+
+(* ---- complete documents: type-system definitions and extensions included ----
+   [wf_doc]: every definition is a well-formed operation / fragment (as above) or
+   a well-formed type-system definition / extension ([wf_sdef]: names are Names,
+   implemented interfaces / union members are named types, operation types name
+   types, directive locations are locations, extensions have at least one of
+   their parts, descriptions of extensions are absent and block descriptions are
+   canonical) without descriptions on fields, arguments, input fields and enum
+   values ([member_desc_free]: exactly the complement of the open finding).
+   All eight definition kinds and seven extension kinds, descriptions on
+   definitions (quoted and block), default values, constant directives, both
+   layouts of argument definitions, and the query shorthand after a definition
+   without a block (fix C03-05: the printed tokens satisfy the [lookahead != {]
+   disambiguation D_document_la of C01_document_complete). *)
+Theorem C03_sdl_roundtrip : forall fl ind d,
+  no_location fl = true -> allow_type_system fl = true -> all_ws ind ->
+  wf_doc (fragment_variables fl) d ->
+  parse_document fl (print_ast ind true d) = Ok (strip_doc d).
+Proof. exact sdl_roundtrip. Qed.
+Print Assumptions C03_sdl_roundtrip.
+
+(* Property C03, closed, for every document the parser accepts that carries no
+   member description: print then parse is the identity up to positions, for
+   every indentation; and printing the re-parsed tree gives the same text. *)
+Theorem C03_roundtrip_document_closed : forall fl fl' s d ind,
+  parse_document fl s = Ok d -> no_member_descriptions d -> all_ws ind ->
+  no_location fl' = true -> allow_type_system fl' = true ->
+  (fragment_variables fl = true -> fragment_variables fl' = true) ->
+  parse_document fl' (print_ast ind true d) = Ok (strip_doc d).
+Proof. exact roundtrip_document_closed. Qed.
+Print Assumptions C03_roundtrip_document_closed.
+
+Theorem C03_idempotent_document_closed : forall fl fl' s d d' ind,
+  parse_document fl s = Ok d -> no_member_descriptions d -> all_ws ind ->
+  no_location fl' = true -> allow_type_system fl' = true ->
+  (fragment_variables fl = true -> fragment_variables fl' = true) ->
+  parse_document fl' (print_ast ind true d) = Ok d' ->
+  print_ast ind true d' = print_ast ind true d.
+Proof. exact idempotent_document_closed. Qed.
+Print Assumptions C03_idempotent_document_closed.
 
 (* the two independent transcriptions of BlockStringValue (C02's and C03's)
    are the same function *)
